@@ -271,7 +271,7 @@ def run_history(ck, hb, db, lanes, mode, ops, tag, per_build_timeout):
             stats["errors"] += 1
             if exp is not None:
                 fails.append(("%s: the build failed (%s) although all included files exist" % (where, e.group(2)), True))
-            elif e.group(2) != "missing-include":
+            elif e.group(2) not in ("missing-include", "parse"):   # the exception says "Unable to transform OKL kernel"
                 fails.append(("%s: unexpected error class %s" % (where, e.group(2)), True))
             if okl and not mline.startswith("parse-error key=" + e.group(1)):
                 fails.append(("%s: model and implementation disagree: impl=%s model=%s" % (where, line[:100], mline[:100]), False))
